@@ -64,7 +64,7 @@ class Random(Component):
     rule = RULE
 
     def examples(self, tier):
-        return 250 if tier == "quick" else 2500
+        return 500 if tier == "quick" else 2500
 
     def strategy(self, tier):
         return gen.set_join_case(tier)
